@@ -39,17 +39,42 @@ def getOptVec {α} (f : Json → Except String α) (j : Json) (k : String) :
   | none => pure none
   | some v => some <$> jsonToList f v
 
-def parseFlavour {α} (f : Json → Except String α) (j : Json) : Except String (Flavour α) := do
+def getOptWith {α} (f : Json → Except String α) (j : Json) (k : String) : Except String (Option α) :=
+  match fieldOpt j k with
+  | none => pure none
+  | some v => some <$> f v
+
+/-- The optional constructor arguments of a single-head module as the call spells them
+(`null` / absent = omitted): {dim, scale_factor, bias, hidden_size}. -/
+def parseSingleArgs {α} (f : Json → Except String α) (j : Json) : Except String (SingleArgs α) := do
+  pure { dim := ← getOptInt j "dim", scaleFactor := ← getOptWith f j "scale_factor",
+         bias := ← getOptWith jsonToBool j "bias", hiddenSize := ← getOptNat j "hidden_size" }
+
+/-- The module the constructor builds: the RESOLVED configuration (model: `SingleArgs.resolve`, documented
+defaults for what was omitted) + the parameter tensors.  The dot flavour has no tensors: its score function
+is the resolved `scale_factor` and nothing else. -/
+def parseFlavour {α} (f : Json → Except String α) (cfg : SingleCfg α) (j : Json) :
+    Except String (Flavour α) := do
   let kind ← getStr j "kind"
   match kind with
-  | "dot" => do
-    let c ← field j "scale" >>= f
-    pure (.dot c)
+  | "dot" => pure (mkDot cfg)
   | "general" => do
-    pure (.general (← getMat f j "W") (← getOptVec f j "b"))
+    let b ← getOptVec f j "b"
+    if cfg.bias && b.isNone then throw "bias requested, no bias vector sent"
+    pure (mkGeneral cfg (← getMat f j "W") b)
   | "concat" => do
-    pure (.concat (← getMat f j "W") (← getOptVec f j "b") (← getVec f j "v"))
+    let b ← getOptVec f j "b"
+    let v ← getVec f j "v"
+    let W ← getMat f j "W"
+    if cfg.bias && b.isNone then throw "bias requested, no bias vector sent"
+    if v.length != cfg.hiddenSize || W.length != cfg.hiddenSize then
+      throw s!"hidden size: constructor resolves {cfg.hiddenSize}, parameters sent for {v.length}"
+    pure (mkConcat cfg W b v)
   | _ => throw s!"bad flavour {kind}"
+
+def singleCfgJ {α} (fj : α → Json) (c : SingleCfg α) : Json :=
+  objJ [("dim", intJ c.dim), ("scale_factor", fj c.scaleFactor), ("bias", boolJ c.bias),
+        ("hidden_size", natJ c.hiddenSize)]
 
 structure Elem (α : Type) where
   q : List α
@@ -100,9 +125,9 @@ def parseTensor {α} (f : Json → Except String α) (dflt : α) (j : Json) : Ex
   let data ← getList f j "data"
   pure (mkTensor shape data.toArray dflt)
 
-/-- {dim, Q, K, vsz, q, k, v, mask} → the result tensor of `tensorApply f …` (or the error class). -/
+/-- {Q, K, vsz, q, k, v, mask} and the constructor's resolved `dim` → the result tensor of `tensorApply f …` (or the error class). -/
 def runTensor (f : Nat → List Float → List (List Float) → List (List Float) → Option (List Bool) → List Float)
-    (outSize : Nat → Nat) (tj : Json) : Except String Json := do
+    (outSize : Nat → Nat) (dim : Int) (tj : Json) : Except String Json := do
   let q ← field tj "q" >>= parseTensor jsonToFloat 0
   let k ← field tj "k" >>= parseTensor jsonToFloat 0
   let v ← field tj "v" >>= parseTensor jsonToFloat 0
@@ -110,7 +135,7 @@ def runTensor (f : Nat → List Float → List (List Float) → List (List Float
     | none => pure none
     | some mj => some <$> parseTensor jsonToBool false mj
   match tensorApply f outSize (← getNat tj "Q") (← getNat tj "K") (← getOptNat tj "vsz")
-      (← getInt tj "dim") q k v mask with
+      dim q k v mask with
   | .error .value => pure (objJ [("error", strJ "value")])
   | .error .runtime => pure (objJ [("error", strJ "runtime")])
   | .ok t => pure (objJ [("shape", listJ natJ t.shape),
@@ -130,11 +155,15 @@ def mhaShifted (m : MHA Float) (q : List Float) (ks vs : List (List Float))
     keptMax (mhaHeadScores Float.tanh m q ks h) (effMask mask ks.length))
   mhaForwardH Float.tanh (fun h => expShift (cs.getD h 0)) m q ks vs mask
 
-/-- case: {flavour, D, elems: [{q, ks, vs, mask}]}. -/
+/-- case: {ctor: {dim, scale_factor, bias, hidden_size} (null = omitted), flavour: {kind, W, b, v}, D,
+elems: [{q, ks, vs, mask}], tensor}. -/
 def c20Single : Handler := fun c => do
   let flJ ← field c "flavour"
-  let fl ← parseFlavour jsonToFloat flJ
-  let flR ← parseFlavour jsonToRat flJ
+  let ctorJ ← field c "ctor"
+  let cfg := (← parseSingleArgs jsonToFloat ctorJ).resolve 1
+  let cfgR := (← parseSingleArgs jsonToRat ctorJ).resolve 1
+  let fl ← parseFlavour jsonToFloat cfg flJ
+  let flR ← parseFlavour jsonToRat cfgR flJ
   let D ← getNat c "D"
   let elemsJ ← field c "elems" >>= (·.getArr?)
   let outs ← elemsJ.toList.mapM (fun ej => do
@@ -153,24 +182,36 @@ def c20Single : Handler := fun c => do
       ("weights", listJ floatJ ws), ("out", listJ floatJ out), ("spec", listJ floatJ spec)]))
   let tens ← match fieldOpt c "tensor" with
     | none => pure Json.null
-    | some tj => runTensor (attendShifted fl) id tj
-  pure (objJ [("elems", Json.arr outs.toArray), ("tensor", tens)])
+    | some tj => runTensor (attendShifted fl) id cfg.dim tj
+  pure (objJ [("elems", Json.arr outs.toArray), ("tensor", tens), ("ctor", singleCfgJ ratToJson cfgR)])
 
 def getFlag (j : Json) (k : String) : Except String Bool := getBool j k
 
-/-- case: {flags: {wq, wk, wv, wc}, params: {H, dq, dk, dv, WQ, WK, WV, WC, bQ, bK, bV, bC, inner},
-elems}.  The module is built by the model's constructor from the REQUESTED flags. -/
+/-- case: {ctor: {inner: {dim, scale_factor, bias, hidden_size}, outer: {out_size, d_v, bias_WQ, bias_WK,
+bias_WV, bias_WC}} (null = omitted), params: {H, D (value_size), dq, dk, WQ, WK, WV, WC, bQ, bK, bV, bC, inner},
+elems}.  The module is built by the model's constructor from the arguments AS SPELLED. -/
 def c20Multi : Handler := fun c => do
-  let fj ← field c "flags"
-  let flags : BiasFlags := ⟨← getFlag fj "wq", ← getFlag fj "wk", ← getFlag fj "wv", ← getFlag fj "wc"⟩
+  let ctorJ ← field c "ctor"
   let pj ← field c "params"
   let f := jsonToFloat
-  let inner ← field pj "inner" >>= parseFlavour f
+  let icfg := (← field ctorJ "inner" >>= parseSingleArgs f).resolve 1
+  let icfgR := (← field ctorJ "inner" >>= parseSingleArgs jsonToRat).resolve 1
+  let oj ← field ctorJ "outer"
+  let oargs : MultiArgs := {
+    outSize := ← getOptNat oj "out_size", dv := ← getOptNat oj "d_v",
+    biasWQ := ← getOptWith jsonToBool oj "bias_WQ", biasWK := ← getOptWith jsonToBool oj "bias_WK",
+    biasWV := ← getOptWith jsonToBool oj "bias_WV", biasWC := ← getOptWith jsonToBool oj "bias_WC" }
+  let H ← getNat pj "H"
+  let ocfg := oargs.resolve (← getNat pj "D") H
+  let flags := ocfg.flags
+  let inner ← field pj "inner" >>= parseFlavour f icfg
   let p : MHAParams Float := {
-    numHeads := ← getNat pj "H", dq := ← getNat pj "dq", dk := ← getNat pj "dk", dv := ← getNat pj "dv",
+    numHeads := H, dq := ← getNat pj "dq", dk := ← getNat pj "dk", dv := ocfg.dv,
     WQ := ← getMat f pj "WQ", WK := ← getMat f pj "WK", WV := ← getMat f pj "WV", WC := ← getMat f pj "WC",
     bQ := ← getVec f pj "bQ", bK := ← getVec f pj "bK", bV := ← getVec f pj "bV", bC := ← getVec f pj "bC",
     inner := inner }
+  if p.WC.length != ocfg.outSize || p.WV.length != H * ocfg.dv then
+    throw s!"constructor resolves out_size {ocfg.outSize}, d_v {ocfg.dv}; parameters sent for {p.WC.length}, {p.WV.length} / {H}"
   let m := build flags p
   let elemsJ ← field c "elems" >>= (·.getArr?)
   let outs ← elemsJ.toList.mapM (fun ej => do
@@ -185,8 +226,10 @@ def c20Multi : Handler := fun c => do
       ("shifts", listJ floatJ cs)]))
   let tens ← match fieldOpt c "tensor" with
     | none => pure Json.null
-    | some tj => runTensor (fun _ => mhaShifted m) (fun _ => m.WC.length) tj
-  pure (objJ [("has_bias", objJ [("wq", boolJ m.bQ.isSome), ("wk", boolJ m.bK.isSome),
+    | some tj => runTensor (fun _ => mhaShifted m) (fun _ => m.WC.length) icfg.dim tj
+  pure (objJ [("ctor", objJ [("inner", singleCfgJ ratToJson icfgR), ("out_size", natJ ocfg.outSize),
+      ("d_v", natJ ocfg.dv), ("d_q", natJ m.dq), ("d_k", natJ m.dk), ("num_heads", natJ m.numHeads)]),
+    ("has_bias", objJ [("wq", boolJ m.bQ.isSome), ("wk", boolJ m.bK.isSome),
       ("wv", boolJ m.bV.isSome), ("wc", boolJ m.bC.isSome)]),
     ("elems", Json.arr outs.toArray), ("tensor", tens)])
 
